@@ -28,6 +28,18 @@ EXP_CUTOFF = float(np.log(sys.float_info.max))
 CONSTS = [0., 1., EXP_CUTOFF]
 
 
+def _kf2_repaired():
+    """known finding KF-C03-2 (a shapeless operand loses its derivatives in mask_where(replace=...)): on a tree where it
+    is repaired (wt-C03 11fb0e6) such operands are tied to the model as well, otherwise they are oracle-only"""
+    try:
+        return bool(Scalar(-4., derivs={'t': Scalar(1.)}).log().derivs)
+    except Exception:
+        return False
+
+
+KF2_REPAIRED = _kf2_repaired()
+
+
 def bits(x):
     return struct.unpack('<Q', struct.pack('<d', float(x)))[0]
 
@@ -80,7 +92,7 @@ def _request(tree, env, variant):
                 raise Unsupported()
             if name in NO_DERIV_RULE and x._derivs_:
                 raise Unsupported()
-            if name in ('sqrt', 'log', 'exp_c', 'recip') and not x._shape_ and x._derivs_:
+            if name in ('sqrt', 'log', 'exp_c', 'recip') and not x._shape_ and x._derivs_ and not KF2_REPAIRED:
                 raise Unsupported()          # known finding KF-C03-2: shapeless mask_where(replace=) drops derivatives
             if name in TABLES:
                 tabulate(TABLES[name], x)
@@ -98,7 +110,7 @@ def _request(tree, env, variant):
                     # representation-dependent corner of Qube.stack (not a hidden-value matter): a derivative whose mask is
                     # the single value True stacked with a missing derivative masks the zero block too
                     raise Unsupported()
-            if name == 'div' and not b._shape_ and b._derivs_:
+            if name == 'div' and not b._shape_ and b._derivs_ and not KF2_REPAIRED:
                 raise Unsupported()          # known finding KF-C03-2 (divisor passes through mask_where_eq(0, 1))
             return ['bin', name, t1, t2], run(name, params, [a, b])
         if name in RED or name == 'sort':
